@@ -5,6 +5,7 @@ import (
 	"encoding/binary"
 	"encoding/hex"
 	"fmt"
+	"regexp"
 	"strings"
 	"testing"
 	"testing/synctest"
@@ -308,7 +309,7 @@ func (e *watchEng) Gen(r *Rand, thorough bool, idx int) Case {
 				}
 
 				if r.Chance(1, 3) {
-					op += " sel=k1:v1"
+					op += " sel=" + Pick(r, []string{"k1:v1", "k1:v1", "@id:a"})
 				}
 			}
 
@@ -700,7 +701,12 @@ func startWatch(ctx context.Context, st state.CoreState, ck []byte, a Args) (*li
 
 		if a["sel"] != "" {
 			k, v, _ := strings.Cut(a["sel"], ":")
-			opts = append(opts, state.WatchWithLabelQuery(resource.LabelEqual(k, v)))
+
+			if k == "@id" { // an ID query: ids starting with v
+				opts = append(opts, state.WatchWithIDQuery(resource.IDRegexpMatch(regexp.MustCompile("^"+regexp.QuoteMeta(v)))))
+			} else {
+				opts = append(opts, state.WatchWithLabelQuery(resource.LabelEqual(k, v)))
+			}
 		}
 
 		if a["kind"] == "agg" {
